@@ -118,6 +118,24 @@ class SysOde2(ODE):
         return dv + params_dict.eq_params["b"] * u_dict["u"](t, pu)
 
 
+def _het_ode(t, u, params):
+    return params.eq_params["a"] * (1.0 + 0.1 * jnp.tanh(jnp.sum(t)))
+
+
+def _het_statio(x, u, params):
+    return params.eq_params["a"] * (1.0 + 0.1 * jnp.tanh(jnp.sum(x)))
+
+
+def _het_nonstatio(t, x, u, params):
+    return params.eq_params["a"] * (1.0 + 0.1 * jnp.tanh(jnp.sum(t) + jnp.sum(x)))
+
+
+def _het(program, fn):
+    """eq_params_heterogeneity for parameter 'a' only ('b' is left out, which is documented as legal);
+    a fresh dict per build: it is a static field of the equation and must never be written to."""
+    return {"eq_params_heterogeneity": {"a": fn}} if program.get("hetero") else {}
+
+
 EQ_KINDS = ["ode", "odevec", "statio1", "statio2", "nonstatio1", "nonstatio2", "sysode"]
 
 # ---------------------------------------------------------------------------
@@ -299,9 +317,13 @@ def build(program):
     form = program.get("form", 0)
     if eq in ("ode", "odevec"):
         if eq == "odevec":
-            dyn = OdeVec()
+            dyn = OdeVec(**_het(program, _het_ode))
         else:
-            dyn = OdeLog() if form == "log" else OdeLin(w=2.0 if form == 0 else 3.0)
+            dyn = OdeLog() if form == "log" else OdeLin(w=2.0 if form == 0 else 3.0, **_het(program, _het_ode))
+        if program.get("obs_slice"):
+            kw_slice = {"obs_slice": jnp.s_[program["obs_slice"][0]:program["obs_slice"][1]]}
+        else:
+            kw_slice = {}
         kw = {}
         if dk == "both":
             kw["derivative_keys"] = jinns.parameters.DerivativeKeysODE.from_str(
@@ -310,7 +332,7 @@ def build(program):
             u=u, dynamic_loss=dyn,
             initial_condition=(float(program["data"]["tmin"]), jnp.array([0.5, -0.3]) if eq == "odevec" else 0.7) if terms.get("ic", True) else None,
             loss_weights=jinns.loss.LossWeightsODE(dyn_loss=lw.get("dyn", 1.0), initial_condition=lw.get("ic", 1.0), observations=lw.get("obs", 1.0)),
-            params=params, **kw)
+            params=params, **kw, **kw_slice)
     elif eq == "sysode":
         P.loss = jinns.loss.SystemLossODE(
             u_dict=P.u, dynamic_loss_dict={"e1": SysOde1(), "e2": SysOde2()},
@@ -321,7 +343,7 @@ def build(program):
                 initial_condition=lw.get("ic", 1.0), observations=lw.get("obs", 1.0)),
             params_dict=params)
     elif eq.startswith("statio"):
-        dyn = StatioLap() if form == 1 else StatioLin()
+        dyn = StatioLap(**_het(program, _het_statio)) if form == 1 else StatioLin(**_het(program, _het_statio))
         kw = {}
         if dk == "both":
             kw["derivative_keys"] = jinns.parameters.DerivativeKeysPDEStatio.from_str(
@@ -339,7 +361,7 @@ def build(program):
             loss_weights=jinns.loss.LossWeightsPDEStatio(dyn_loss=lw.get("dyn", 1.0), boundary_loss=lw.get("bc", 1.0), norm_loss=lw.get("norm", 1.0), observations=lw.get("obs", 1.0)),
             params=params, **kw)
     else:
-        dyn = NonStatioAdv()
+        dyn = NonStatioAdv(**_het(program, _het_nonstatio))
         kw = {}
         if dk == "both":
             kw["derivative_keys"] = jinns.parameters.DerivativeKeysPDENonStatio.from_str(
@@ -427,7 +449,7 @@ def build_obs(program):
             cols.append(lo + (hi - lo) * ((r * (0.23 + 0.1 * j) + 0.05) % 1.0))
     pin = np.stack(cols, axis=1).astype(dt)
     val = (0.5 * np.sin(pin.sum(axis=1)) + 0.1 * r / max(n, 1)).astype(dt)[:, None]
-    if program["eq"] == "odevec":
+    if program["eq"] == "odevec" and not program.get("obs_slice"):
         val = np.concatenate([val, (0.3 * np.cos(pin.sum(axis=1))).astype(dt)[:, None]], axis=1)
     if o.get("nan_row") is not None:
         val[o["nan_row"] % n, 0] = np.inf if o.get("nan_value") == "inf" else np.nan
@@ -651,6 +673,31 @@ def fingerprint(params):
 
 
 # ---------------------------------------------------------------------------
+# scripted validation stub (C19, and RAR programs that run together with a validation module)
+
+
+def scripted_validation(period, script):
+    from jinns.validation._validation import AbstractValidationModule
+
+    class Scripted(AbstractValidationModule):
+        call_every: int = eqx.field(kw_only=True)
+        stops: jax.Array = eqx.field(kw_only=True)
+        improved: jax.Array = eqx.field(kw_only=True)
+        k: jax.Array = eqx.field(kw_only=True)
+
+        def __call__(self, params):
+            L = self.stops.shape[0]
+            kk = jnp.minimum(self.k, L - 1)
+            fp = sum(jnp.sum(x) for x in jax.tree_util.tree_leaves(params))
+            crit = fp + self.k.astype(fp.dtype)
+            new = eqx.tree_at(lambda t: t.k, self, self.k + 1)
+            return new, self.stops[kk], crit, self.improved[kk]
+
+    return Scripted(call_every=period, stops=jnp.asarray([s["stop"] for s in script]),
+                    improved=jnp.asarray([s["improved"] for s in script]), k=jnp.zeros([], jnp.int32))
+
+
+# ---------------------------------------------------------------------------
 # RAR programs (C16 / C17)
 
 
@@ -729,6 +776,10 @@ def gen_rar_program(rng, r, tier, float_mode="x64"):
         prog["segments"] = [{"n": cut}, {"n": n_iter - cut, "resume": "full"}]
     prog["driver"] = "M2"
     prog["also_M1"] = rng.random() < 0.3
+    # refinement together with a validation module (which never asks to stop): the schedule must not notice
+    if rng.random() < 0.25:
+        prog["validation"] = {"kind": "scripted", "period": rng.choice([1, 2, 3]),
+                              "script": [{"improved": rng.random() < 0.5, "stop": False} for _ in range(3)]}
     return prog
 
 
@@ -772,7 +823,10 @@ def run_rar(program, P=None):
                 loc_s.append(_snap_data(c[4].data))
                 loc_p.append(c[2].params)
 
-            out, _ = call_solve(P, n, p, d, None, None, o, driver=driver, observer=obs if collect else None)
+            vmod = None
+            if program.get("validation"):
+                vmod = scripted_validation(program["validation"]["period"], program["validation"]["script"])
+            out, _ = call_solve(P, n, p, d, None, None, o, validation=vmod, driver=driver, observer=obs if collect else None)
             jax.effects_barrier()
             if T.hook:
                 for e in _rar_mod._VERIF_SINK:
